@@ -218,6 +218,66 @@ def reshape_case(ctx: Ctx, stream: str, i: int) -> None:
     ctx.case(f'reshape:{cfg}', st == 'ok', sample={'op': 'reshape', **cfg, 'status': st})
 
 
+def pair_case(ctx: Ctx, stream: str, i: int) -> None:
+    """Two ravel / reshape / move-axis operators next to each other: a pair cancels to the identity under reduce()
+    only when the product really leaves every leaf unchanged; A @ B.T of two DIFFERENT relabellings of the same
+    input must keep relabelling."""
+    from furax._base.axes import MoveAxisOperator, RavelOperator, ReshapeOperator
+    from furax._base.core import CompositionOperator, IdentityOperator
+    from encode import Encoder, first_diff, sx
+    rng = ctx.rng(stream, i)
+    shape = rng.choice([(4, 6), (2, 3, 4), (2, 2, 3), (6,), (3, 4)])
+    s = jax.ShapeDtypeStruct(shape, jnp.float32)
+    n = int(np.prod(shape))
+
+    def relabelling():
+        k = rng.random()
+        if k < 0.35 and len(shape) >= 2:
+            f = rng.randrange(len(shape) - 1)
+            return RavelOperator(f, rng.randint(f + 1, len(shape) - 1), in_structure=s)
+        if k < 0.5:
+            return RavelOperator(in_structure=s)
+        if k < 0.85:
+            divs = [d for d in range(1, n + 1) if n % d == 0]
+            a = rng.choice(divs)
+            target = rng.choice([(n,), (a, n // a), (-1, a), (a, -1)])
+            return ReshapeOperator(target, in_structure=s)
+        return ReshapeOperator(shape, in_structure=s)
+    st, ab = safe(lambda: (relabelling(), relabelling()))
+    if st != 'ok':
+        ctx.count('pair:construction-' + st)
+        return
+    a, b = ab
+    same_out = gen.same_structure(a.out_structure(), b.out_structure())
+    chains = [('A@B.T', [a, b.T]), ('A@A.T', [a, a.T]), ('A.T@A', [a.T, a])]
+    if same_out:
+        chains.append(('B.T@A', [b.T, a]))
+    for label, ops in chains:
+        e = CompositionOperator(ops)
+        enc = Encoder()
+        esx = enc.op(e)
+        enc.freeze()
+        cfg = {'pair': label, 'shape': shape, 'expr': sx(esx)[:1200]}
+        st, red = safe(e.reduce)
+        if st != 'ok':
+            ctx.fail(stream, i, f'pair-reduce-raises:{st}', str(red)[:150], cfg)
+            continue
+        if not (gen.same_structure(red.in_structure(), e.in_structure()) and
+                gen.same_structure(red.out_structure(), e.out_structure())):
+            ctx.fail(stream, i, f'pair-reduced-structure:{label}', f'reduce() of {label} has other structures '
+                     f'({type(red).__name__})', cfg)
+        elif not gen.close(gen.dense(red), gen.dense(e)):
+            ctx.fail(stream, i, f'pair-reduced-map:{label}', f'reduce() of {label} denotes another map', cfg)
+        if isinstance(red, IdentityOperator) and not gen.same_structure(e.in_structure(), e.out_structure()):
+            ctx.fail(stream, i, f'pair-identity-changes-shape:{label}', f'{label} was reduced to the identity although it '
+                     f'changes the leaf shape', cfg)
+        rep = ctx.model.ask(['reduce', esx])
+        if rep[0] != 'ok' or first_diff(rep[1], enc.op(red)) is not None:
+            ctx.disagree(stream, i, f'{label}: reduce() form differs from the model: {sx(rep)[:160]}', cfg)
+        ctx.count('pair:' + label)
+        ctx.case(f'pair:{label}:{sx(esx)}', True, sample={'pair': label, 'shape': shape, 'result': type(red).__name__})
+
+
 def run(ctx: Ctx) -> None:
     n = 150 if ctx.tier == 'quick' else 3500
     for i in range(n):
@@ -229,3 +289,6 @@ def run(ctx: Ctx) -> None:
     for i in range(n):
         if ctx.want('reshape', i):
             reshape_case(ctx, 'reshape', i)
+    for i in range(60 if ctx.tier == 'quick' else 1500):
+        if ctx.want('pair', i):
+            pair_case(ctx, 'pair', i)
